@@ -486,7 +486,7 @@ func finish(ld *Loaded, db *SpecDB, reports []*FuncReport, groups map[string]*ob
 			violations++
 			p := writeReplayNote(prop, n, bad, "obligation was discharged on the baseline tree and is not discharged now")
 			lines = append(lines, fmt.Sprintf("VIOLATION property=%s replay=%s no-failing-input-found", prop, p))
-		case bad.Status == "failed" && bad.Kind == "frame" && bad.Func == bad.Host && baselineHasFunc(baseline, bad.Func):
+		case bad.Status == "failed" && bad.Kind == "frame" && !bad.Havocked && bad.Func == bad.Host && baselineHasFunc(baseline, bad.Func):
 			// `modifies` is one clause of the contract; it is checked per written location, and a
 			// location the function did not write on the baseline tree has no obligation of its
 			// own there. The clause was discharged on the baseline tree; now the function writes
@@ -494,7 +494,7 @@ func finish(ld *Loaded, db *SpecDB, reports []*FuncReport, groups map[string]*ob
 			violations++
 			p := writeReplayNote(prop, n, bad, "the modifies clause of the function was discharged on the baseline tree; this location outside it is written now (model attached)")
 			lines = append(lines, fmt.Sprintf("VIOLATION property=%s replay=%s no-failing-input-found", prop, p))
-		case bad.Status == "failed" && bad.Kind == "safety" && (baselineHasFunc(baseline, bad.Func) || baselineHasFunc(baseline, bad.Host)):
+		case bad.Status == "failed" && bad.Kind == "safety" && !bad.Havocked && (baselineHasFunc(baseline, bad.Func) || baselineHasFunc(baseline, bad.Host)):
 			// Panic freedom is an obligation of the function as a whole: every run-time check of
 			// every instruction was discharged on the baseline tree. The instruction is new, so
 			// there is no obligation of the same name to compare with, but the solver has a model
